@@ -42,12 +42,18 @@ Fixpoint first_candidate (fs : fsys) (name : string) (ds : list (list string))
 Definition expected (fs : fsys) (name : string) (comps : list string) : option (string * string) :=
   first_candidate fs name (ancestors comps).
 
-(** Components of a path string (empty ones dropped: leading / trailing separator). *)
-Definition comps_of (p : string) : list string :=
-  filter (fun c => negb (String.eqb c "")) (split_char "/"%char p).
+(** Components of a path string: empty ones (leading / trailing separator) and
+    "." dropped; ".." then removes the component before it. *)
+Definition raw_comps (p : string) : list string :=
+  filter (fun c => negb (String.eqb c "") && negb (String.eqb c ".")) (split_char "/"%char p).
+
+Definition resolve (l : list string) : list string :=
+  fold_left (fun acc c => if String.eqb c ".." then removelast acc else acc ++ [c]) l [].
+
+Definition comps_of (p : string) : list string := resolve (raw_comps p).
 
 Definition abs_comps (cwd start : string) : list string :=
-  if starts_with "/" start then comps_of start else comps_of cwd ++ comps_of start.
+  if starts_with "/" start then comps_of start else resolve (raw_comps cwd ++ raw_comps start).
 
 (** What was observed: the loaded module's file and the reported project
     directory, both made absolute by the harness; or the exception. *)
@@ -66,7 +72,8 @@ Definition spec_ok (fs : fsys) (cwd start name : string) (obs : observed) : bool
 
 (** ** Guards of the partial theorems *)
 Definition comp_okb (c : string) : bool :=
-  negb (String.eqb c "") && negb (contains_char "/"%char c).
+  negb (String.eqb c "") && negb (contains_char "/"%char c)
+  && negb (String.eqb c ".") && negb (String.eqb c "..").
 Definition comps_okb (comps : list string) : bool := forallb comp_okb comps.
 
 Definition all_listable (fs : fsys) (comps : list string) : bool :=
